@@ -6,7 +6,7 @@ from vlib.xh import Job
 FRAMES = {"py": (["def", "x", "(", ")", ":"], []), "brace": (["x", "(", ")", "{"], ["}"]), "js": (["function", "x", "(", ")", "{"], ["}"])}
 
 
-def soup_jobs(ctx, mode, plan, framed=False):
+def soup_jobs(ctx, mode, plan, framed=False, tolerate=()):
     """plan: {lang: N}. One condition per (language, class of the first token). framed: the symbolic tokens form the body of a fixed one-function frame."""
     jobs = []
     sizes = {}
@@ -22,8 +22,8 @@ def soup_jobs(ctx, mode, plan, framed=False):
             frame = None
             if framed:
                 frame = FRAMES["py" if lang == "Python" else "js" if lang in ("JavaScript", "TypeScript") else "brace"]
-            jobs.append(Job("soup.py", "h_total", {"lang": lang, "N": n, "first": k, "mode": mode, "frame": frame}, T, 30, tag=f"{lang}/N={n}/first={alpha[k]!r}/{mode}" + ("/framed" if framed else ""),
-                            meta={"twin": alpha[k] in ("x", "def", "function"), "sigtag": f"soup:{lang}"}))
+            jobs.append(Job("soup.py", "h_total", {"lang": lang, "N": n, "first": k, "mode": mode, "frame": frame, "tolerate": list(tolerate)}, T, 30, tag=f"{lang}/N={n}/first={alpha[k]!r}/{mode}" + ("/framed" if framed else ""),
+                            meta={"twin": alpha[k] in ("x", "def", "function"), "sigtag": f"soup:{lang}", "tolerant": True}))
     ctx.bounds["token soups" + (" inside a function frame" if framed else "")] = {lang: f"every sequence of {n} tokens over {alpha} with every valid layout (line steps >= 0, columns >= 1, spacing >= 0: unbounded)" for lang, (n, alpha) in sizes.items()}
     return jobs
 
@@ -32,7 +32,7 @@ MUT_LABELS = ["two", "stmt-mix", "params-multiline", "nested-middle", "class-met
 MUT_OPS = ["prefix", "suffix", "delete", "dup", "swap", "replace"]
 
 
-def mutation_jobs(ctx, labels=None):
+def mutation_jobs(ctx, labels=None, tolerate=()):
     """Every single-edit mutant (edit position and replacement class chosen by the solver) of a few canonical programs per language."""
     from vlib import skel
     jobs = []
@@ -45,6 +45,6 @@ def mutation_jobs(ctx, labels=None):
                 continue
             n += 1
             for op in MUT_OPS:
-                jobs.append(Job("mut.py", "h_mut", {"lang": lang, "label": label, "op": op}, T, 60, tag=f"{lang}/{label}/{op}", meta={"twin": op == "replace" and label == "two", "sigtag": f"mut:{lang}:{op}"}))
+                jobs.append(Job("mut.py", "h_mut", {"lang": lang, "label": label, "op": op, "tolerate": list(tolerate)}, T, 60, tag=f"{lang}/{label}/{op}", meta={"twin": op == "replace" and label == "two", "sigtag": f"mut:{lang}:{op}", "tolerant": True}))
     ctx.bounds["mutated programs"] = f"{n} canonical programs x {{truncate to any prefix, drop any prefix, delete / duplicate any token, swap any adjacent pair, replace any token by any alphabet member}} (position and class chosen by the solver; concrete once chosen)"
     return jobs
